@@ -11,10 +11,7 @@ func init() {
 }
 
 func vNondetFileMaps() Maps {
-	n := 1 + vChoose(2)
-	if vTier() == 1 {
-		n = 1 + vChoose(3)
-	}
+	n := 1 + vChoose(vP("maps", 2, 3))
 	var ms Maps
 	for i := 0; i < n; i++ {
 		k := vNondetString(1, 1, "ab")
